@@ -460,10 +460,11 @@ class Environment:
         if not self.first_invocation:
             return
 
+        # Values given for backend options by the machine files or on the
+        # command line were parked as pending options by the top level
+        # project() call, in their order of precedence; adding the option
+        # applies the one that won.
         self.coredata.init_backend_options(backend_name)
-        for k, v in self.options.items():
-            if self.coredata.optstore.is_backend_option(k):
-                self.coredata.optstore.set_option(k, v)
 
     def is_cross_build(self, when_building_for: MachineChoice = MachineChoice.HOST) -> bool:
         return self.machine_map[when_building_for] is not self.machine_map.build
